@@ -2,6 +2,7 @@ use crate::prng::Rng;
 use std::collections::BTreeMap;
 
 pub mod dos;
+pub mod fs;
 pub mod spec;
 pub mod fault;
 pub mod aes;
@@ -71,6 +72,7 @@ pub fn all() -> Vec<Box<dyn Stream>> {
         Box::new(layers::Damage),
         Box::new(aes::Aes),
         Box::new(spec::SpecStream),
+        Box::new(fs::FsStream),
     ]
 }
 
